@@ -364,7 +364,19 @@ inductive ChildMode
   | wrapOmit
   /-- wrapper element always written -/
   | wrapAlways
+  /-- element written only when one of its first `n` fields writes something (`if (type == NoType && condition ==
+  NoCondition) return;`); without them the class treats the element as absent, so it also READS as absent (all
+  defaults) — canonical values have all fields unset when the first `n` are -/
+  | wrapGuard (n : Nat)
   deriving Repr, BEq, DecidableEq
+
+def ChildMode.isGuard : ChildMode → Bool
+  | .wrapGuard _ => true
+  | _ => false
+
+def ChildMode.guardN : ChildMode → Nat
+  | .wrapGuard n => n
+  | _ => 0
 
 inductive Field
   /-- attribute; `omitD`: not written when the value is the default -/
@@ -404,6 +416,11 @@ def Val.isSomeOpt : Val → Bool
   | .opt (some _) => true
   | _ => false
 
+/-- the value of a `tagChild` field: (index of the tag, text payload) -/
+def Val.tagParts : Val → Option (Option Nat × Str)
+  | .record [.opt i, .str t] => some (i, t)
+  | _ => none
+
 def Val.recVals : Val → List Val
   | .record vs => vs
   | _ => []
@@ -421,14 +438,16 @@ mutual
       | .opt (some i) => ([], [.elem (nth names i) (nsAttr decl ns) []])
       | _ => ([], [])
     | .tagChild ns decl _ names _ _ _ _, v =>
-      match v with
-      | .record [.opt (some i), .str t] => ([], [.elem (nth names i) (nsAttr decl ns) (textNode t)])
+      match v.tagParts with
+      | some (some i, t) => ([], [.elem (nth names i) (nsAttr decl ns) (textNode t)])
       | _ => ([], [])
     | .child h fs mode, v =>
       match v with
       | .record vs =>
         let r := encFs fs vs
-        if mode == .wrapOmit && r.1.isEmpty && r.2.isEmpty then ([], []) else ([], [h.mk' r.1 r.2])
+        if mode == .wrapOmit && r.1.isEmpty && r.2.isEmpty then ([], [])
+        else if mode.isGuard && guardEmpty mode.guardN fs vs then ([], [])
+        else ([], [h.mk' r.1 r.2])
       | _ => ([], [])
     | .many h fs _, v =>
       match v with
@@ -441,7 +460,18 @@ mutual
       let a := encF f v
       let b := encFs fs vs
       (a.1 ++ b.1, a.2 ++ b.2)
+  /-- the first `n` fields write nothing -/
+  def guardEmpty : Nat → List Field → List Val → Bool
+    | 0, _, _ => true
+    | _ + 1, [], _ => true
+    | _ + 1, _ :: _, [] => true
+    | n + 1, f :: fs, v :: vs =>
+      let a := encF f v
+      a.1.isEmpty && a.2.isEmpty && guardEmpty n fs vs
 end
+
+def guardOff (mode : ChildMode) (fs : List Field) (vs : List Val) : Bool :=
+  mode.isGuard && guardEmpty mode.guardN fs vs
 
 /-! ## decode (total on every tree) -/
 
@@ -464,7 +494,9 @@ mutual
       | none => .record [.opt none, .str []]
     | .child h fs mode =>
       match (pickChild h.last (h.matches pns) x.kids).filter (fun k => !h.nsAfter || k.nsOf pns == h.ns) with
-      | some k => .record (decFs (k.nsOf pns) k fs)
+      | some k =>
+        if guardOff mode fs (decFs (k.nsOf pns) k fs) then .record (decFs h.ns nullNode fs)
+        else .record (decFs (k.nsOf pns) k fs)
       | none => if mode == .optional then .absent else .record (decFs h.ns nullNode fs)
     | .many h fs _ =>
       .list ((x.kids.filter (h.matches pns)).map fun k => .record (decFs (k.nsOf pns) k fs))
@@ -486,14 +518,15 @@ mutual
       | .opt (some i) => i < names.length
       | _ => false
     | .tagChild _ _ _ names _ _ _ textFor, v =>
-      match v with
-      | .record [.opt none, .str t] => t.isEmpty
-      | .record [.opt (some i), .str t] => i < names.length && (t.isEmpty || textFor.contains i)
-      | _ => false
+      match v.tagParts with
+      | some (none, t) => t.isEmpty
+      | some (some i, t) => i < names.length && (t.isEmpty || textFor.contains i)
+      | none => false
     | .child _ fs mode, v =>
       match v with
       | .absent => mode == .optional
-      | .record vs => canonFs fs vs
+      | .record vs => canonFs fs vs &&
+          (!guardOff mode fs vs || ((encFs fs vs).1.isEmpty && (encFs fs vs).2.isEmpty))
       | _ => false
     | .many _ fs _, v =>
       match v with
@@ -582,6 +615,25 @@ def Head.ok (pns : Str) (h : Head) : Bool := h.decl || h.ns == pns
 def Head.extraOk (h : Head) (fs : List Field) : Bool :=
   h.extra.all fun kv => kv.1 != xmlnsKey && fs.all fun f => !f.reads kv.1
 
+/-! `quietFs fs`: decoding an absent element and encoding the result writes nothing (every field omits its default) -/
+mutual
+  def quietF : Field → Bool
+    | .attr _ ty omitD => omitD && ty.isDefault (ty.parse [])
+    | .attrReadOnly _ _ => true
+    | .text ty => (ty.show (ty.parse [])).isEmpty
+    | .enumChild .. => true
+    | .tagChild .. => true
+    | .child _ fs mode =>
+      match mode with
+      | .optional => true
+      | .wrapAlways => false
+      | _ => quietFs fs
+    | .many .. => true
+  def quietFs : List Field → Bool
+    | [] => true
+    | f :: fs => quietF f && quietFs fs
+end
+
 mutual
   def wfF (pns : Str) : Field → Bool
     | .attr name ty _ => name != xmlnsKey && ty.wf
@@ -590,7 +642,7 @@ mutual
     | .enumChild ns decl _ names _ => (decl || ns == pns) && !names.contains [] && nodupB names
     | .tagChild ns decl _ names skip _ _ _ =>
       (decl || ns == pns) && !names.contains [] && nodupB names && names.all fun n => !skip.contains n
-    | .child h fs _ => h.ok pns && h.extraOk fs && wfFs h.ns fs
+    | .child h fs mode => h.ok pns && h.extraOk fs && wfFs h.ns fs && (!mode.isGuard || quietFs fs)
     | .many h fs _ => h.ok pns && h.extraOk fs && wfFs h.ns fs
   def wfFs (pns : Str) : List Field → Bool
     | [] => true
@@ -612,7 +664,7 @@ end
 
 mutual
   def mandPlacedF : Field → Bool
-    | .child _ fs mode => if mode == .optional then noMandFs fs else mandPlacedFs fs
+    | .child _ fs mode => if mode == .optional || mode.isGuard then noMandFs fs else mandPlacedFs fs
     | .many _ fs _ => noMandFs fs
     | _ => true
   def mandPlacedFs : List Field → Bool
@@ -636,47 +688,6 @@ mutual
   def mandOK : List Field → List Val → Bool
     | f :: fs, v :: vs => mandF f v && mandOK fs vs
     | _, _ => true
-end
-
-/-! ## schemas of classes whose writer drops an attribute the parser reads
-
-`fixF` is the repaired field (the attribute is written when it is not the default), `resetF` forgets
-in a value exactly what today's writer drops. -/
-
-mutual
-  def fixF : Field → Field
-    | .attrReadOnly n ty => .attr n ty true
-    | .child h fs m => .child h (fixFs fs) m
-    | .many h fs ne => .many h (fixFs fs) ne
-    | .attr n ty o => .attr n ty o
-    | .text ty => .text ty
-    | .enumChild ns d a names m => .enumChild ns d a names m
-    | .tagChild ns d a names sk ko l tf => .tagChild ns d a names sk ko l tf
-  def fixFs : List Field → List Field
-    | [] => []
-    | f :: fs => fixF f :: fixFs fs
-end
-
-def Val.mapRecord (g : List Val → List Val) : Val → Val
-  | .record vs => .record (g vs)
-  | v => v
-
-mutual
-  def resetF : Field → Val → Val
-    | .attrReadOnly _ ty, _ => ty.parse []
-    | .child _ fs _, v => v.mapRecord (resetFs fs)
-    | .many _ fs _, v =>
-      match v with
-      | .list items => .list (items.map fun it => it.mapRecord (resetFs fs))
-      | v => v
-    | .attr .., v => v
-    | .text _, v => v
-    | .enumChild .., v => v
-    | .tagChild .., v => v
-  def resetFs : List Field → List Val → List Val
-    | [], vs => vs
-    | _ :: _, [] => []
-    | f :: fs, v :: vs => resetF f v :: resetFs fs vs
 end
 
 /-! ## classes -/
@@ -704,9 +715,6 @@ def Schema.WF (S : Schema) : Prop :=
     ∧ mandPlacedFs S.fields = true ∧ S.head.extraOk S.fields = true
 
 instance (S : Schema) : Decidable S.WF := by unfold Schema.WF; infer_instance
-
-/-- the schema with every read-only attribute written (`S.fix = S` for schemas without any) -/
-def Schema.fix (S : Schema) : Schema := { S with fields := fixFs S.fields }
 
 /-- values `decode` can produce and `encode` preserves -/
 def Schema.Canon (S : Schema) (v : List Val) : Prop :=
